@@ -42,14 +42,17 @@ def type_args(t):
     return [a["ty"] for a in t.get("args", []) if "ty" in a]
 
 
-def abstract_value(ip, cr, st, tix, name, depth=0):
-    """symbolic value of type tix; references get fresh cells."""
+def abstract_value(ip, cr, st, tix, name, depth=0, penv=None):
+    """symbolic value of type tix; references get fresh cells.  penv: generic parameter name -> type
+    index, for the fields of a generic struct instantiated with concrete arguments."""
     t = cr.types[tix]
     k = t["k"]
+    if k == "param" and penv and t["name"] in penv and penv[t["name"]] != tix:
+        return abstract_value(ip, cr, st, penv[t["name"]], name, depth + 1, None)
     if k == "ref":
         cell = ("A", name)
         inner = cr.types[t["inner"]]
-        st.heap[cell] = abstract_value(ip, cr, st, t["inner"], name, depth + 1)
+        st.heap[cell] = abstract_value(ip, cr, st, t["inner"], name, depth + 1, penv)
         return vref(Target(cell))
     if k == "uint":
         if t["name"] == "usize":
@@ -106,10 +109,14 @@ def abstract_value(ip, cr, st, tix, name, depth=0):
             saved = dict(ip.ctx.param_len)
             tys = [x for x in t["args"] if "ty" in x]
             gi = 0
+            penv2 = {}
             for gname in gen:
                 if gname.startswith("'"):
                     continue
                 if gi < len(tys):
+                    ta = cr.types[tys[gi]["ty"]]
+                    if not (ta["k"] == "param" and ta["name"] == gname):
+                        penv2[gname] = tys[gi]["ty"]
                     try:
                         ip.ctx.param_len[gname] = ip.tn_lin(cr, tys[gi]["ty"])
                     except Undecided:
@@ -118,7 +125,7 @@ def abstract_value(ip, cr, st, tix, name, depth=0):
             fields = {}
             c2 = cr
             for f in a["variants"][0]["fields"]:
-                fields[f["name"]] = abstract_value(ip, c2, st, f["ty"], name + "." + f["name"], depth + 1)
+                fields[f["name"]] = abstract_value(ip, c2, st, f["ty"], name + "." + f["name"], depth + 1, penv2)
             ip.ctx.param_len = saved
             return vstruct(t["adt"], fields)
         return ("opaque", t["s"])
